@@ -31,7 +31,7 @@ fn all_bodies(w: &World, c: usize) -> Vec<(usize, String, message_types::Message
     v
 }
 
-fn history(prop: &str, i: u64, rng: &mut Rng, out: &mut Outcome, dir: &std::path::Path) {
+pub fn history(prop: &str, i: u64, rng: &mut Rng, out: &mut Outcome, dir: &std::path::Path) {
     let mut w = World::empty(dir.to_path_buf(), format!("c03-{i}"));
     let cfg = mdk_core::MdkConfig::default();
     out.evaluations += 1;
